@@ -25,6 +25,7 @@ def _(self: Ref['mqtt.client.pubsubs.MQTTProtocol'], dup: bool):
     ensures(dq_len(Q(self)) == 0 or (is_int(dq_at(Q(self), dq_head(Q(self))).msgId) and len(W(self)) >= self._window))
     # entries that were in flight are untouched; new ones are driven by a fresh timer
     ensures(implies(old(alarms_set(self)), alarms_set(self)))
+    ensures(same_containers(self))
     # the other windows are not touched
     ensures(forall(lambda k: contains(R(self), k) == old(contains(R(self), k)) and R(self)[k] == old(R(self)[k])))
     ensures(forall(lambda k: contains(S(self), k) == old(contains(S(self), k)) and S(self)[k] == old(S(self)[k])))
@@ -47,6 +48,7 @@ def _():
     invariant(len(out(self)) == len(old(out(self))) + (dq_head(Q(self)) - old(dq_head(Q(self)))))
     invariant(len(W(self)) <= old(len(W(self))) or len(W(self)) <= self._window)
     invariant(implies(old(alarms_set(self)), alarms_set(self)))
+    invariant(same_containers(self))
     invariant(forall(lambda k: contains(R(self), k) == old(contains(R(self), k)) and R(self)[k] == old(R(self)[k])))
     invariant(forall(lambda k: contains(S(self), k) == old(contains(S(self), k)) and S(self)[k] == old(S(self)[k])))
     invariant(forall(lambda k: contains(U(self), k) == old(contains(U(self), k)) and U(self)[k] == old(U(self)[k])))
